@@ -85,6 +85,14 @@ func (c *FnCtx) resolveCallee(cc *ssa.CallCommon) *calleeInfo {
 		}
 	} else {
 		ci.name = "dynamic:" + cc.Value.Name()
+		// a call through a package-level func variable declared effect-free ("purevar")
+		if u, ok := cc.Value.(*ssa.UnOp); ok && u.Op == token.MUL {
+			if gl, ok := u.X.(*ssa.Global); ok && c.g.specs.PureVars[gl.Name()] {
+				ci.name = "var:" + gl.Name()
+				ci.external = true
+				ci.pkgName = "$purevar"
+			}
+		}
 	}
 	return ci
 }
@@ -609,7 +617,40 @@ func (c *FnCtx) dropOblig(o *Oblig) {
 	}
 }
 
+// stableAtomic: the receiver is a struct field declared "stable" in the specs: its atomic value is
+// modelled by the ghost map atomicVal (no concurrent change during this activation - an assumption).
+func (c *FnCtx) stableAtomic(ci *calleeInfo) bool {
+	if len(ci.args) == 0 {
+		return false
+	}
+	fa, ok := ci.args[0].(*ssa.FieldAddr)
+	if !ok {
+		return false
+	}
+	st := fa.X.Type().Underlying().(*types.Pointer).Elem()
+	n, ok := st.(*types.Named)
+	if !ok {
+		return false
+	}
+	return c.g.specs.Stable[n.Obj().Name()+"."+st.Underlying().(*types.Struct).Field(fa.Field).Name()]
+}
+
 func (c *FnCtx) atomicCall(ci *calleeInfo, args []Term, locs []*Loc, results []Term) {
+	if c.stableAtomic(ci) {
+		comp := c.comp("ghost$atomicVal", "(Array Int Int)")
+		cur := c.get(c.st, comp)
+		switch {
+		case strings.HasSuffix(ci.name, ".Load") && len(results) == 1 && c.sortOfResult(ci) == "Int":
+			c.assume(eq(results[0], app("select", cur, args[0])))
+			c.trusted["stable atomic field (no concurrent change during one call): "+ci.name] = true
+			return
+		case strings.HasSuffix(ci.name, ".Store") && len(args) == 2 && c.sortOfResult(ci) == "":
+			n := c.freshComp(comp)
+			c.assume(eq(n, app("store", cur, args[0], args[1])))
+			c.set(comp, n)
+			return
+		}
+	}
 	// shared memory: every read is arbitrary (covers every interleaving); writes have no
 	// effect visible to this sequential proof. Results are fresh (already declared).
 	c.trusted["sync/atomic + sync: reads are arbitrary, writes invisible (over-approximates all schedules)"] = true
@@ -1099,6 +1140,13 @@ func (c *FnCtx) selectStmt(x *ssa.Select) {
 			c.assume(implies(eq(idx, num(int64(r.i))), c.mustClause(e, envPost)))
 		}
 	}
+}
+
+func (c *FnCtx) sortOfResult(ci *calleeInfo) string {
+	if ci.sig.Results().Len() == 0 {
+		return ""
+	}
+	return c.sortOf(ci.sig.Results().At(0).Type())
 }
 
 // dryRun evaluates f (a spec translation used only for its static result) and rolls back every
